@@ -8,7 +8,7 @@ ap = argparse.ArgumentParser()
 ap.add_argument("sid"); ap.add_argument("--only", nargs="*"); ap.add_argument("--tier", default="quick"); ap.add_argument("--seed", default="1")
 ap.add_argument("-v", action="store_true")
 a = ap.parse_args()
-pid = a.sid.split("-")[0]
+pid = os.environ.get("TRYSEED_PROPERTY") or a.sid.split("-")[0]
 scratch = Path(tempfile.mkdtemp(prefix="tryseed-"))
 try:
     repo = scratch / "repo"
